@@ -126,9 +126,62 @@ Record fcase := mkF {
 
 Definition q_of_nat (k : nat) : Q := inject_Z (Z.of_nat k).
 
+(* the grouped model [fixed_entries2] (PINIT, count and type columns as lists, the count a scalar like the pit column) *)
+Definition fx_to_state (l : list (@fx_node Q)) : @fx_state Q :=
+  mkFxs (map (@fx_p Q) l) (map (fun n => q_of_nat (fx_cnt n)) l) (map (@fx_isP Q) l).
+
+Fixpoint blist_eqb (a b : list bool) : bool :=
+  match a, b with
+  | [], [] => true
+  | x :: a', y :: b' => Bool.eqb x y && blist_eqb a' b'
+  | _, _ => false
+  end.
+
 Definition fcase_ok (c : fcase) : bool :=
-  fxlist_eqb
-    (fold_left (fun st rows => fixed_entries 0%Q Qplus Qmult Qdiv q_of_nat
-                                 (zassoc (f_lookup c) (length (f_before c))) rows st)
-               (f_calls c) (f_before c))
+  let pos := zassoc (f_lookup c) (length (f_before c)) in
+  let st := fold_left (fun st rows => fixed_entries2 0%Q 1%Q Qplus Qmult Qdiv pos rows st) (f_calls c)
+                      (fx_to_state (f_before c)) in
+  let ex := fx_to_state (f_after c) in
+  qlist_eqb (fs_p st) (fs_p ex) && qlist_eqb (fs_cnt st) (fs_cnt ex) && blist_eqb (fs_isP st) (fs_isP ex)
+  (* and the record-style model of round 1 agrees as well *)
+  && fxlist_eqb
+    (fold_left (fun st rows => fixed_entries 0%Q Qplus Qmult Qdiv q_of_nat pos rows st) (f_calls c) (f_before c))
     (f_after c).
+
+(* ------------------------------------------------------------------ result extraction of node elements *)
+Definition oq_eqb (a b : option Q) : bool :=
+  match a, b with Some x, Some y => Qeq_bool x y | None, None => true | _, _ => false end.
+Definition oz_eqb (a b : option Z) : bool :=
+  match a, b with Some x, Some y => Z.eqb x y | None, None => true | _, _ => false end.
+Fixpoint olist_eqb {X} (e : X -> X -> bool) (a b : list X) : bool :=
+  match a, b with
+  | [], [] => true
+  | x :: a', y :: b' => e x y && olist_eqb e a' b'
+  | _, _ => false
+  end.
+
+Definition eg (j : Z) (valid ins : bool) : eg_row := mkEg j valid ins.
+
+(* ExtGrid.extract_results: res_ext_grid.mdot_kg_per_s (NaN = None) from MDOTSLACKINIT *)
+Record ecase := mkE {
+  e_lookup : list (Z * nat);
+  e_rows : list eg_row;
+  e_msl : list Q;                 (* MDOTSLACKINIT column of the node pit *)
+  e_res : list (option Q)         (* real result column after the call (NaN before) *)
+}.
+Definition ecase_ok (c : ecase) : bool :=
+  olist_eqb oq_eqb
+    (extgrid_results 0%Q 1%Q Qplus Qdiv (zassoc (e_lookup c) (length (e_msl c))) (e_rows c) (e_msl c)
+                     (map (fun _ => None) (e_rows c)))
+    (e_res c).
+
+(* ConstFlow.extract_results: res_sink / res_source / res_mass_storage .mdot_kg_per_s *)
+Record rcase := mkR {
+  r_supplied : list Z;            (* junction labels whose node is active (net._lookups node_active_hydraulics) *)
+  r_rows : list (@cf_row Z);
+  r_res : list (option Z)
+}.
+Definition rcase_ok (c : rcase) : bool :=
+  olist_eqb oz_eqb
+    (constflow_results Z.mul (fun l => existsb (Z.eqb l) (r_supplied c)) (r_rows c) (map (fun _ => None) (r_rows c)))
+    (r_res c).
